@@ -332,7 +332,9 @@ def _run(prop, a, seed, t0):
         "assumptions": assumptions, "wall_s": round(time.time() - t0, 2), "violations": len(violations),
     }
     # evidence/ only ever holds runs against /repo itself; a run against a scratch copy (VERIF_REPO=...) writes elsewhere
-    evdir = os.path.join(HERE, "evidence") if os.path.realpath(os.environ.get("VERIF_REPO", "/repo")) == "/repo" else os.path.join(HERE, "out", "evidence_scratch")
+    # (a partial run - developer flags --no-vc / --no-standin - writes elsewhere too: evidence/ describes complete runs only)
+    full = not (a.no_vc or a.no_standin)
+    evdir = os.path.join(HERE, "evidence") if full and os.path.realpath(os.environ.get("VERIF_REPO", "/repo")) == "/repo" else os.path.join(HERE, "out", "evidence_scratch")
     os.makedirs(evdir, exist_ok=True)
     ev["coverage"]["tree"] = os.environ.get("VERIF_REPO", "/repo")
     with open(os.path.join(evdir, prop + ".json"), "w") as f:
